@@ -1291,4 +1291,5 @@ func TestC20(t *testing.T) {
 	c.Rule(rule)
 	h.Run(c, "provenance", c.N(40000, 400000), genCase, oracle)
 	runHeld(c)
+	runComputed(c)
 }
